@@ -91,7 +91,7 @@ def run(ctx):
             cases.append(mk('symdel', 6, big[:4], k, maxc, seqs2=big[2:]))
     # one residue more than 255 times in a sequence: the composition counts the kdtree pre-filter works on do not wrap (seeded change
     # C14-r8m1: counts held in uint8)
-    longs = ['A' * 257, 'A' * 258, 'A' * 256 + 'C', 'C' + 'A' * 257, 'CAF', 'A' * 255]
+    longs = ['A' * 257, 'A' * 258, 'A' * 256 + 'C', 'C' + 'A' * 257, 'CAF', 'A' * 255, 'A' * 256, 'A' * 255 + 'C']   # 255 | 256: across the wrap
     for eng in ('kdtree', 'symdel'):
         for which, maxc in ((0, None), (1, 3), (3, 1)):
             cases.append(mk(eng, which, longs, 1, maxc))
